@@ -82,13 +82,14 @@ Section Refine.
       of_live o = true ->
       NoDup (map lf_other lfs) ->
       (forall lf, In lf lfs -> kfind lf_other (lf_other lf) (of_lofs o) = Some lf) ->
+      (unlock = false -> forall lf, In lf lfs -> (lf_count lf <= 0)%Z) ->
       forall oofs, NoDup (map vo_other oofs) -> kfind vo_other (of_other o) oofs = Some (vo o) ->
       vpath Q (S oofs lows pool) (S (kupd vo_other (vo o') oofs) lows' pool')
       /\ of_other o' = of_other o /\ of_handle o' = of_handle o /\ of_live o' = of_live o
       /\ of_lofs o' = fold_left (fun l lf => del_lofs (lf_other lf) l) lfs (of_lofs o).
     Proof.
       intros unlock lfs. induction lfs as [|lf tl IH];
-        intros o lows pool o' lows' pool' outs pn H Hlive Hnd Hall oofs Hoo Hfo.
+        intros o lows pool o' lows' pool' outs pn H Hlive Hnd Hall Hgate oofs Hoo Hfo.
       - cbn in H. inversion H; subst. split; [|auto].
         apply vpath_eq. rewrite (kupd_same vo_other oofs (vo o') Hoo Hfo). reflexivity.
       - cbn [lofs_remove_all] in H.
@@ -117,7 +118,7 @@ Section Refine.
         { pose proof (vt_rmlof Q (S oofs lows pool) (mkVC cid oofs lows) (vo o) (vl lf) unlock
                         (S_found oofs lows pool)) as T0.
           cbn [vc_oofs vc_lows vc_id] in T0.
-          specialize (T0 Hfo Hlive (vfind_lofs _ _ _ Hlf)).
+          specialize (T0 Hfo Hlive (vfind_lofs _ _ _ Hlf) (fun E => Hgate E lf (or_introl eq_refl))).
           rewrite S_put in T0. cbn [v_pool S] in T0. rewrite <- Hpool1, <- Hvo2 in T0. cbn [vl vl_owner] in T0. rewrite El in T0. exact T0. }
         (* the rest *)
         assert (Hlive2 : of_live o2 = true) by (subst o2; cbn; congruence).
@@ -133,7 +134,9 @@ Section Refine.
         assert (Hfo2 : kfind vo_other (of_other o2) (kupd vo_other (vo o2) oofs) = Some (vo o2)).
         { replace (of_other o2) with (vo_other (vo o2)) by reflexivity.
           apply (kfind_kupd_same vo_other (vo o2) oofs (vo o)). cbn [vo vo_other]. rewrite Ho2o. exact Hfo. }
-        destruct (IH o2 lows1 pool1 o' lows' pool' outs2 pn3 Er Hlive2 Hnd2 Hall2 _ Hoo2 Hfo2)
+        assert (Hgate2 : unlock = false -> forall lf', In lf' tl -> (lf_count lf' <= 0)%Z)
+          by (intros E lf' Hin; apply (Hgate E); right; exact Hin).
+        destruct (IH o2 lows1 pool1 o' lows' pool' outs2 pn3 Er Hlive2 Hnd2 Hall2 Hgate2 _ Hoo2 Hfo2)
           as [P [B1 [B2 [B3 B4]]]].
         rewrite (kupd_kupd vo_other) in P by (cbn [vo vo_other]; exact B1).
         split; [eapply vp_step; [exact T|exact P]|].
@@ -176,7 +179,8 @@ Section Refine.
     assert (Hfound : exists c0, kfind vc_id (c_id c) cls = Some c0) by eauto.
     assert (Hvoo : NoDup (map vo_other (map vo (c_oofs c)))) by (rewrite (map_keys of_other vo_other vo vo_key); exact Hoo).
     destruct (lofs_rm_view cls nextlo (c_id c) Hfound true (of_lofs o) o (c_lowners c) pool o1 lows pool0 outs1 pn1
-                Er Hlive Hnd Hall (map vo (c_oofs c)) Hvoo (vfind_oofs _ _ _ Hfo)) as [P [B1 [B2 [B3 B4]]]].
+                Er Hlive Hnd Hall (fun E => False_ind _ (Bool.diff_true_false E)) (map vo (c_oofs c)) Hvoo (vfind_oofs _ _ _ Hfo))
+      as [P [B1 [B2 [B3 B4]]]].
     rewrite fold_del_all in B4 by exact Hnd.
     assert (Ho2 : of_other o2 = of_other o1 /\ of_handle o2 = of_handle o1).
     { unfold oofs_downgrade in Ed. destruct (sc_downgrade _ _ _ _) as [[[rd wr] bz] pn0]. inversion Ed; subst. cbn. auto. }
